@@ -78,7 +78,14 @@ def merge_copyright_lines(copyright_lines: set[str]) -> set[str]:
             else:
                 year = f"{min(years)} - {max(years)}"
 
-        copyright_out.add(make_copyright_line(statement, year, prefix))
+        # The statement is what an existing notice says behind its prefix and
+        # year. It is not looked at again: a holder such as 'Copyright
+        # Clearance Center' would be taken for a notice of its own.
+        prefix_text = _COPYRIGHT_PREFIXES[prefix]
+        if year is not None:
+            copyright_out.add(f"{prefix_text} {year} {statement}")
+        else:
+            copyright_out.add(f"{prefix_text} {statement}")
     return copyright_out
 
 
